@@ -4,6 +4,7 @@ CONSTANTS
   MaxLen = 6
   Scale = 1
   LawId = "lin"
+  LawTable <- EmptyTable
   FixedJunction = TRUE
 INVARIANT SecondPassIsSteadyState
 INVARIANT Memory3OnlyFirstPassSymmetric
